@@ -1,6 +1,7 @@
 // C12 / C11 (second sentence) / C05 (first sentence): replay of spec/UtfText.tla cases into gr_make_seg.
 // The text sits in a buffer that ends exactly at its terminating NUL, followed by an inaccessible page.
 #include "common.hpp"
+#include "graphite2/Log.h"
 #include "registry.hpp"
 
 using namespace grv;
@@ -44,6 +45,10 @@ GRV_CMD(utftext) {
     for (int i = 2; i < argc; ++i) {
         gr_face *fc = gr_make_file_face(argv[i], gr_face_default);
         if (!fc) { fprintf(stderr, "cannot load %s\n", argv[i]); return 2; }
+#ifdef GRV_TRACING
+        // library built with tracing support: with GRV_LOG set, a trace log is attached to every face (gr_start_logging)
+        if (getenv("GRV_LOG") && !gr_start_logging(fc, "/dev/null")) { fprintf(stderr, "gr_start_logging failed\n"); return 2; }
+#endif
         faces.push_back(fc); names.push_back(argv[i]);
     }
     std::string line; long segs = 0, equiv = 0, recorded = 0;
